@@ -231,11 +231,18 @@ def merge(results):
 def conclude(mod, check_id, tier, seed, results, problems, wall, write_evidence):
     ev, nontrivial, counters, hists, samples, violations, inconc, exhaustive = merge(results)
     known = load_known(check_id)
-    known_by_key = {f["match"]: f for f in known}
+    import fnmatch
+    known_by_key = {}
     new_violations, known_hits = {}, {}
     for mech, v in violations.items():
-        if mech in known_by_key:
+        hit = None
+        for f in known:
+            if fnmatch.fnmatchcase(mech, f["match"]):
+                hit = f
+                break
+        if hit is not None:
             known_hits[mech] = v
+            known_by_key[mech] = hit
         else:
             new_violations[mech] = v
 
@@ -255,10 +262,15 @@ def conclude(mod, check_id, tier, seed, results, problems, wall, write_evidence)
     if not sample_list:
         sample_list = [{"note": "no non-trivial sample recorded"}]
 
+    printed_keys = set()
     for mech, v in sorted(known_hits.items()):
         f = known_by_key[mech]
+        if f["key"] in printed_keys:
+            continue
+        printed_keys.add(f["key"])
+        total = sum(x["count"] for m, x in known_hits.items() if known_by_key[m]["key"] == f["key"])
         print("KNOWN-FINDING: property=%s %s [%s; seen %d times in this run]" % (
-            check_id, f["what_fails"], f["key"], v["count"]))
+            check_id, f["what_fails"], f["key"], total))
 
     status = "held"
     replay_paths = []
